@@ -121,6 +121,22 @@ Lemma sys_wellformed own sops :
   NoDup (map pid (contacts (s_tab (sys_run own sops)))) /\ NoDup (map pkey (contacts (s_tab (sys_run own sops)))).
 Proof. intros Ho V. destruct (pm_refines own sops V) as (ops & Vo & ->). apply wellformed; assumption. Qed.
 
+Lemma rpc_exact own ops key requester :
+  own < M -> Forall op_valid ops ->
+  exact_closest own (Some requester) (run own ops) key K (rpc_find_node own (run own ops) key requester) /\
+  exact_closest own (Some requester) (run own ops) key K (rpc_find_value_contacts own (run own ops) key requester).
+Proof.
+  intros Ho V. pose proof (closest_exact own ops key 0%Z (Some requester) Ho V (Z.le_refl 0)) as E.
+  cbn [Z.eqb] in E.
+  assert (L : (length (find_close own (run own ops) key 0 (Some requester)) <= K)%nat).
+  { destruct E as (_ & _ & _ & cands & _ & _ & ->). apply Nat.le_min_l. }
+  assert (E1 : rpc_find_node own (run own ops) key requester = find_close own (run own ops) key 0 (Some requester)).
+  { unfold rpc_find_node. apply firstn_all2. unfold K in *. lia. }
+  assert (E2 : rpc_find_value_contacts own (run own ops) key requester = find_close own (run own ops) key 0 (Some requester)).
+  { unfold rpc_find_value_contacts. rewrite E1. apply firstn_all2. exact L. }
+  rewrite E1, E2. split; exact E.
+Qed.
+
 (* ---------- the old _join_buckets (range_max = midpoint - 1) ---------- *)
 Definition env0 : env := mkEnv (fun _ => false) (fun _ => Stale) (fun _ => true).
 Definition pk (id n : N) : peer := mkPeer id (184549377 + n) 4444.
